@@ -22,6 +22,9 @@ for p in "${patches[@]}"; do
   p="$(readlink -f "$p")"
   name="$(basename "$(dirname "$p")")/$(basename "$p")"
   rm -rf "$S/repo"; rsync -a --exclude target --exclude .git /repo/ "$S/repo/"
+  # cargo decides by modification time: a file restored to its (older) original time would leave the crate it belongs
+  # to compiled from the previous patch. All sources get the current time, so every workspace crate is rebuilt.
+  find "$S/repo" -name "*.rs" -exec touch {} +
   if ! (cd "$S/repo" && (git apply --whitespace=nowarn "$p" 2>/dev/null || patch --binary -p1 -s < "$p")); then echo "$name: PATCH DOES NOT APPLY"; missed=$((missed+1)); continue; fi
   if ! (cd "$S/sim" && CARGO_TARGET_DIR="$S/target" CARGO_NET_OFFLINE=true cargo build --release --offline -q 2>"$S/build.log"); then echo "$name: BUILD FAILED"; tail -5 "$S/build.log"; missed=$((missed+1)); continue; fi
   # expected catchers
